@@ -444,7 +444,7 @@ def run(ctx):
 
     for op in sorted(_ops()):
         if op not in ("zonal_mean", "zonal_mean_f64", "whits_sg", "whitsvc_lc"):
-            ctx.given("pixel_perm", cube([op]), ctx.n(3, 25), fn=f_pp, shrink=False)
+            ctx.given("pixel_perm", cube([op]), ctx.n(6, 25), fn=f_pp, shrink=False)
 
     # thread counts of the prange kernel
     def f_th(case):
